@@ -3,7 +3,8 @@
 MT=${MT:-/tmp/mt}; export MT
 # runs checks of a scratch copy of /verif ($MT/verif) against the scratch repo $MT/repo with the patch applied
 NAME=$1; P=$2; shift 2
-rsync -a --delete --exclude work --exclude replays --exclude evidence --exclude .git /verif/ $MT/verif/ 
+# the lane tests /verif as COMMITTED (HEAD), so edits in progress do not leak into a running batch; build output is kept
+mkdir -p $MT/verif && git -C /verif archive HEAD | tar -x -C $MT/verif
 cd $MT/repo && git reset -q --hard && git checkout -q --detach main && git clean -qfd -e target && git apply $P || { echo "MT $NAME apply-failed"; exit 1; }
 cd $MT/verif
 for id in "$@"; do
